@@ -187,6 +187,9 @@ BDD_OP_MUTS.update({
 })
 O = 'BDD/OBDD.py'
 BDD_OP_MUTS.update({
+ 'node_restrict_one_is_false': (B, "            if value == 1:\n                value = True", "            if value == 1:\n                value = False", ['BDDNode.restrict']),
+ 'node_restrict_no_type_test': (B, "        if not (isinstance(var, str) and isinstance(value, bool)):", "        if not (isinstance(value, bool)):", ['BDDNode.restrict']),
+ 'obdd_restrict_identity': (O, "        return OBDD(self.root.restrict(var, value), self.ordering)", "        return OBDD(self.root, self.ordering)", ['OBDD.restrict']),
  'obdd_and_is_or': (O, "        return self.apply((lambda a, b: a and b), A)", "        return self.apply((lambda a, b: a or b), A)", ['OBDD.__and__']),
  'obdd_xor_is_or': (O, "        return self.apply((lambda a, b: a ^ b), A)", "        return self.apply((lambda a, b: a | b), A)", ['OBDD.__xor__']),
  'obdd_or_one_sided': (O, "        return self.apply((lambda a, b: a or b), A)", "        return self.apply((lambda a, b: a or a), A)", ['OBDD.__or__']),
